@@ -362,6 +362,12 @@ func runC01(c *Ctx) {
 	c.rule("C01-R6", "BND: built-in functions and index expressions of both engines keep run-time integers in range before indexing/slicing/allocating (same decision procedure as C04-R12): a builtin that panics for some argument does not compute its documented result")
 	boundsRule(c, "C01-R6", []string{interpPkg, vmPkg}, 6)
 
+	// ---- R7 integers are integers
+	c.rule("C01-R7", "INTCMP: for the ordering (<, <=, >, >=) and the +, -, * arms of the interpreter's binary-operator dispatch, the handler the arm calls (and its same-package callees, two levels) performs that operation on two integer payloads - values taken out of the dynamic operands by type assertion with no numeric conversion on the way: int x int is never routed through float64 (53-bit mantissa), which would change results for integers above 2^53 while == still compares them exactly")
+	c.Sites["C01-R7#operator-arms"] = intOpAudit(c, "C01-R7", interpPkg, "Interpreter.evaluateBinaryOp", modPath+"/pkg/ast", "BinOp",
+		map[string]opClass{"Lt": opOrdering, "Le": opOrdering, "Gt": opOrdering, "Ge": opOrdering, "Add": opAdd, "Sub": opSub, "Mul": opMul}, "interpreter")
+	c.floor("C01-R7", 6)
+
 	// ---- R4 documented precedence
 	c.rule("C01-R4", "TBL: for every binary operator listed with a precedence in docs/LANGUAGE_SPECIFICATION.md the level Parser.currentBinaryOp returns for its token equals the documented level; precedence climbing is left-associative: parseBinaryExpr's loop exit comparison does not exit at precedence == minPrecedence and the recursive call passes precedence+1")
 	spell := map[string]string{"+": "PLUS", "-": "MINUS", "*": "STAR", "/": "SLASH", "%": "PERCENT", "==": "EQ_EQ", "!=": "NOT_EQ", "<": "LESS", "<=": "LESS_EQ", ">": "GREATER", ">=": "GREATER_EQ", "&&": "AND", "||": "OR"}
